@@ -67,6 +67,7 @@ package acl
 //@   assert @return {C06} readkeys: result == nil && acl.Config.RequirePass && subCommand == zeroval("internal.SubCommand") && !exempt(command.Command) && !(exists c int :: 0 <= c && c < len(categories) && categories[c] == "pubsub") ==> (forall i int :: 0 <= i && i < len(readKeys) ==> (exists j int :: 0 <= j && j < len(connection.User.IncludedReadKeys) && globmatch(acl.GlobPatterns[connection.User.IncludedReadKeys[j]], readKeys[i])))
 //@   assert @return {C06} writekeys: result == nil && acl.Config.RequirePass && subCommand == zeroval("internal.SubCommand") && !exempt(command.Command) && !(exists c int :: 0 <= c && c < len(categories) && categories[c] == "pubsub") ==> (forall i int :: 0 <= i && i < len(writeKeys) ==> (exists j int :: 0 <= j && j < len(connection.User.IncludedWriteKeys) && globmatch(acl.GlobPatterns[connection.User.IncludedWriteKeys[j]], writeKeys[i])))
 //@   assert @return {C06} nokeys-honoured: result == nil && acl.Config.RequirePass && subCommand == zeroval("internal.SubCommand") && !exempt(command.Command) && !(exists c int :: 0 <= c && c < len(categories) && categories[c] == "pubsub") && connection.User.NoKeys ==> len(readKeys) + len(writeKeys) == 0
+//@   assert @return {C06} channels-all: result == nil && acl.Config.RequirePass && subCommand == zeroval("internal.SubCommand") && !exempt(command.Command) && (exists c int :: 0 <= c && c < len(categories) && categories[c] == "pubsub") ==> (forall i int :: 0 <= i && i < len(channels) ==> (exists j int :: 0 <= j && j < len(connection.User.IncludedPubSubChannels) && globmatch(acl.GlobPatterns[connection.User.IncludedPubSubChannels[j]], channels[i])) && !(exists j int :: 0 <= j && j < len(connection.User.ExcludedPubSubChannels) && globmatch(acl.GlobPatterns[connection.User.ExcludedPubSubChannels[j]], channels[i])))
 //@   loop 2
 //@     invariant {C06} channels: forall i int :: 0 <= i && i <= rangeindex ==> (exists j int :: 0 <= j && j < len(connection.User.IncludedPubSubChannels) && globmatch(acl.GlobPatterns[connection.User.IncludedPubSubChannels[j]], rangeslice[i])) && !(exists j int :: 0 <= j && j < len(connection.User.ExcludedPubSubChannels) && globmatch(acl.GlobPatterns[connection.User.ExcludedPubSubChannels[j]], rangeslice[i]))
 
